@@ -128,6 +128,23 @@ pub fn judge(tree: &E, other: &E) -> Verdict {
 fn case_json(t: &E, o: &E) -> Value {
     json!({"kind": "pair", "tree": term::encode_expr(t), "other": term::encode_expr(o)})
 }
+/// Compile one expression `reps` times: the program and the table must be the same every time.
+pub fn judge_repeat(t: &E, reps: usize) -> Verdict {
+    let x = to_ast(t);
+    let opts = lipe_find_parser::RunOptions::default();
+    let rec = |c: &lipe_find_parser::ast::Expression| -> Result<String, String> {
+        catch(|| lipe_find_parser::compile(c, &opts).map(|p| (normalise(&p.scheme("/dev/x")), sorted_map(p.io_map()))).map_err(|e| e.to_string())).map(|r| format!("{r:?}"))
+    };
+    let first = rec(&x);
+    for k in 1..reps {
+        let again = rec(&x);
+        if again != first {
+            return Verdict::Fail(format!("{t:?}: compilation number {} differs from the first one (nothing but the per-map hash keys changed)\nfirst: {}\nnow:   {}", k + 1, truncate(&format!("{first:?}"), 1500), truncate(&format!("{again:?}"), 1500)));
+        }
+    }
+    Verdict::Pass { nt: true, class: "one expression compiled many hundreds of times: always the same program and table" }
+}
+
 pub fn replay(case: &Value) -> Result<Verdict, String> {
     match case["kind"].as_str() {
         Some("history") => {
@@ -137,6 +154,10 @@ pub fn replay(case: &Value) -> Result<Verdict, String> {
                 None => Err("bad step".to_string()),
             }).collect::<Result<Vec<_>, _>>()?;
             Ok(judge_history(&steps))
+        }
+        Some("repeat") => {
+            let t = term::decode_expr(case["tree"].as_str().ok_or("tree")?)?;
+            Ok(judge_repeat(&t, case["times"].as_u64().unwrap_or(5000) as usize))
         }
         Some("cross-process") => {
             let text = case["input"].as_str().ok_or("input")?;
@@ -411,6 +432,37 @@ pub fn run(ctx: &Ctx) -> Report {
         }
     }
     total.merge(stp);
+    // the same expression compiled many hundreds of times: every hash map of the standard library
+    // gets its own random keys, so an outcome that depends on them (bucket order, an Eq that is wider
+    // than its Hash and is only consulted when two hashes fall into one bucket) shows in a fraction
+    // of the compilations only
+    let reps = ctx.tier.pick(700usize, 5000usize);
+    let twin_trees: Vec<E> = {
+        let f = |n: &str| E::A(Act::FPrint(n.into()));
+        let f0 = |n: &str| E::A(Act::FPrint0(n.into()));
+        let nm = |p: &str| E::T(Tst::Name(p.into()));
+        let inm = |p: &str| E::T(Tst::IName(p.into()));
+        let ip = |p: &str| E::T(Tst::IPath(p.into()));
+        vec![
+            E::or(f("./a"), f("a")),
+            E::or(E::or(f("a"), f("a/")), E::or(f("./a"), f("a//"))),
+            E::and(E::or(f0("out"), f0("./out")), E::or(f("out"), f("OUT"))),
+            E::or(E::or(inm("core"), inm("CORE")), E::or(inm("Core"), inm("cORE"))),
+            E::and(E::or(ip("*/Src/*"), ip("*/src/*")), E::A(Act::Print0)),
+            E::or(E::or(nm("a"), nm("A")), E::or(inm("a"), inm("A"))),
+            E::and(E::or(E::or(nm("x*"), nm("x?")), E::or(nm("x"), inm("x"))), E::and(f("x"), f0("x"))),
+            E::or(E::A(Act::FPrintf("a".into(), vec![FEl::F(Fld::Name)])), E::or(f("a"), E::A(Act::FPrintf("./a".into(), vec![FEl::F(Fld::Name)])))),
+            E::and(E::or(E::T(Tst::Pool("ssd".into())), E::T(Tst::Pool("SSD".into()))), E::or(E::T(Tst::Xattr("user.a".into())), E::T(Tst::Xattr("USER.A".into())))),
+        ]
+    };
+    let rep = run_shards(twin_trees.len(), |i| {
+        let mut st = Stats::new();
+        let t = &twin_trees[i];
+        let v = judge_repeat(t, reps);
+        st.record(&v, stable_hash(t), true, || json!({"kind": "repeat", "times": reps, "tree": crate::term::encode_expr(t)}));
+        st
+    });
+    total.merge(rep);
     // histories with the wall clock advancing (one sleep of at most ~1 s each, run in parallel)
     let per_thread = ctx.tier.pick(2usize, 12usize);
     let hist = run_shards(16, |shard| {
@@ -482,7 +534,7 @@ pub fn run(ctx: &Ctx) -> Report {
     total.samples.truncate(6);
     Report {
         stats: total,
-        rule: "random expressions biased to 8..40 distinct matchers/printers (so that hash-table iteration order would show). (a) in one process: parsing the text twice gives equal results; compiling e1, an unrelated e2, then e1 again gives byte-identical programs (embedded epoch normalised) and equal destination tables; (b) the same texts (plus near-duplicates: other blanks inside quotes, formats that are prefixes of one another, strings with quotes/backslashes; every prefix of 40 texts in increasing length) are parsed and compiled in three fresh processes (fresh hash seeds), each visiting them in a different order (reversed, strided), and the canonical records must be identical to this process's; (c) every wall-clock second embedded by a time test lies between clock readings taken around the compile call, also in histories of compile calls on one thread in which earlier calls fail after a time test was emitted and the wall clock moves into the next second in between (32 such histories in the quick tier); the number of reference seconds in a program equals the number of time tests of its tree; time tests whose age is within -2..+4 units (s, min, h, d) of the current time since the epoch are compiled in five consecutive seconds and must give the same program up to the embedded second. Non-trivial: >=8 matcher/printer requests. Distinct: by (tree pair) / input text.".into(),
+        rule: "random expressions biased to 8..40 distinct matchers/printers (so that hash-table iteration order would show). (a) in one process: parsing the text twice gives equal results; compiling e1, an unrelated e2, then e1 again gives byte-identical programs (embedded epoch normalised) and equal destination tables; (b) the same texts (plus near-duplicates: other blanks inside quotes, formats that are prefixes of one another, strings with quotes/backslashes; every prefix of 40 texts in increasing length) are parsed and compiled in three fresh processes (fresh hash seeds), each visiting them in a different order (reversed, strided), and the canonical records must be identical to this process's; (a') nine expressions made of path twins, case twins and literal/pattern twins are compiled 700 (quick) / 5000 (thorough) times each and must give the same program and table every time (outcomes that depend on the per-map hash keys); (c) every wall-clock second embedded by a time test lies between clock readings taken around the compile call, also in histories of compile calls on one thread in which earlier calls fail after a time test was emitted and the wall clock moves into the next second in between (32 such histories in the quick tier); the number of reference seconds in a program equals the number of time tests of its tree; time tests whose age is within -2..+4 units (s, min, h, d) of the current time since the epoch are compiled in five consecutive seconds and must give the same program up to the embedded second. Non-trivial: >=8 matcher/printer requests. Distinct: by (tree pair) / input text.".into(),
         assumptions: vec!["the embedded second is recognised as the first operand of (- N (atime|ctime|mtime))".into()],
         exhaustive: false,
     }
